@@ -117,6 +117,12 @@ func (p *Plenc) CodecForTypeRegistry(registry plenccodec.CodecRegistry, typ refl
 		c = plenccodec.PointerWrapper{Underlying: subc}
 
 	case reflect.Struct:
+		if tag != "" && registry.Load(typ, "") != nil {
+			// The type has its own codec (e.g. time.Time), just not under this
+			// tag. Building a struct codec from its fields would silently
+			// encode something else.
+			return nil, fmt.Errorf("no codec available for %s with tag %q", typ, tag)
+		}
 		c, err = plenccodec.BuildStructCodec(p, registry, typ, tag)
 		if err != nil {
 			return nil, err
